@@ -40,9 +40,19 @@ def check_tonebursts(ctx):
         cycles = int(rng.integers(1, 8))
         dt = float(rng.choice([1e-8, 2e-8, 4e-8, 2.0 ** -24, 1e-7]))
         f = float(rng.uniform(0.5e6, 8e6))
+        if _ % 10 == 9:
+            # the shortest pulses: one, two, three samples (a coarse time step)
+            cycles, f = 1, 5e6
+            dt = float([200e-9, 100e-9, 70e-9][(_ // 10) % 3])
         if cycles / f / dt > 400:
             continue
         sig = model.make_toneburst(cycles, f, dt)
+        if len(sig) <= 3:
+            ctx.count(f"toneburst:len={len(sig)}")
+            if not (np.all(np.isfinite(sig)) and abs(np.abs(sig).max() - 1.0) <= 1e-12):
+                ctx.violate(f"make_toneburst({cycles}, {f}, {dt}) (a pulse of {len(sig)} sample(s)) is {np.asarray(sig).tolist()}: not finite with peak 1",
+                            {"op": "make_toneburst", "cycles": cycles, "f": f, "dt": dt}, {"kind": "toneburst_short"})
+                continue
         n = len(sig)
         extra = int(rng.integers(0, 12))
         wrap = bool(rng.integers(0, 2))
